@@ -177,7 +177,7 @@ def compare_composed(R, model, qpre, qchunks):
                     'trace': text[:1500]}
     # a message whose _retry_later has not come back when the run ends (it gave up, asked for the bounce, and its removal waits for a
     # slot of a saturated store pool): the bounce was asked for, the label of the model's retry step is logged when the call returns
-    lagging = set(R.incr_pending)
+    lagging = set(R.incr_pending) | set(R.permfail_pending)
     settled_only = lambda g: dict((k, v) for k, v in g.items() if k not in lagging)
     mb = settled_only(calm_only(_group([(int(a), int(b), c, d == '1') for a, b, c, d in parse(fields['bounces'], 4)])))
     ib = settled_only(calm_only(_group([(k, r, dots(n), t) for k, r, n, t in R.bounce_calls])))
@@ -250,6 +250,7 @@ class Run(object):
         self.bounce_calls = []   # (k, reply id, [recipient numbers], too_many) of every call of the bounce factory
         self.reported = {}       # k -> recipient numbers the relay reported delivered, in order
         self.first_racing = None
+        self.permfail_pending = set()   # k: _perm_fail(id, ...) entered and not returned (its removal spawn waits for a store-pool slot)
         self.events = []         # ('saw', k, [recipient numbers]) when the relay starts an attempt, ('out', k, {number: verdict}) when it answers
         self.gave_up = set()     # k: the backoff function answered None
         self.recipients_of = {}  # k -> recipient numbers the message was accepted with
@@ -582,6 +583,19 @@ def run_case(case, model):
             finally:
                 ctx_of.pop(gevent.getcurrent(), None)
         q._check_ready, q._retry_later, q._remove_stored, q._add_queued = check_ready, retry_later, remove_stored, add_queued
+        orig_perm_fail = q._perm_fail
+
+        def perm_fail(id, envelope, reply):
+            # _perm_fail(id, ...) first spawns the removal (which waits when the store pool is full) and only then asks for the bounce:
+            # while it is inside, the model (whose `done` step does both) is ahead by that bounce
+            kk = R.kid.get(id) if id is not None else None
+            if kk is not None:
+                R.permfail_pending.add(kk)
+            try:
+                return orig_perm_fail(id, envelope, reply)
+            finally:
+                R.permfail_pending.discard(kk)
+        q._perm_fail = perm_fail
         q._pool_spawn, q._dequeue, q.flush = pool_spawn, orig_dequeue, flush
 
         def make_env(k):
